@@ -58,15 +58,17 @@ pub struct World {
     pub respond_errors: Vec<String>,
     pub yielded: Vec<(RawFd, String)>,
     pub n_refused: usize,
+    pub shutdown_polls: usize,
+    pub nonshutdown_after_kill: usize,
 }
 
 pub fn open_fds() -> BTreeSet<RawFd> {
+    // probing with fcntl opens no descriptor of its own (reading /proc/self/fd would)
     let mut s = BTreeSet::new();
-    if let Ok(rd) = std::fs::read_dir("/proc/self/fd") {
-        for e in rd.flatten() {
-            if let Ok(n) = e.file_name().to_string_lossy().parse::<RawFd>() {
-                s.insert(n);
-            }
+    for fd in 0..1024 {
+        // SAFETY: F_GETFD on an arbitrary number is harmless
+        if unsafe { libc::fcntl(fd, libc::F_GETFD) } != -1 {
+            s.insert(fd);
         }
     }
     s
@@ -159,6 +161,8 @@ impl World {
             respond_errors: vec![],
             yielded: vec![],
             n_refused: 0,
+            shutdown_polls: 0,
+            nonshutdown_after_kill: 0,
         };
         w.emit(rec, "srv new".into(), "ok".into());
         if let Some(l) = limit {
@@ -214,8 +218,9 @@ impl World {
     }
 
     pub fn send(&mut self, rec: &mut Rec, i: usize, bytes: &[u8]) -> bool {
+        let wr_shut = self.clients[i].wr_shut;
         let ok = match self.clients[i].sock.as_mut() {
-            Some(s) if !self.clients[i].wr_shut => s.write_all(bytes).is_ok(),
+            Some(s) if !wr_shut => s.write_all(bytes).is_ok(),
             _ => false,
         };
         self.note(rec, &format!("client {} send {} {}", i, hx(bytes), if ok { "ok" } else { "failed" }));
@@ -225,9 +230,11 @@ impl World {
     pub fn client_read(&mut self, rec: &mut Rec, i: usize) -> usize {
         let mut total = 0;
         let mut eof = false;
+        let rd_shut = self.clients[i].rd_shut;
+        let mut got: Vec<u8> = vec![];
         if let Some(s) = self.clients[i].sock.as_mut() {
-            if !self.clients[i].rd_shut {
-                let mut buf = [0u8; 65536];
+            if !rd_shut {
+                let mut buf = vec![0u8; 65536];
                 loop {
                     match s.read(&mut buf) {
                         Ok(0) => {
@@ -235,7 +242,7 @@ impl World {
                             break;
                         }
                         Ok(n) => {
-                            self.clients[i].received.extend_from_slice(&buf[..n]);
+                            got.extend_from_slice(&buf[..n]);
                             total += n;
                         }
                         Err(_) => break,
@@ -243,6 +250,7 @@ impl World {
                 }
             }
         }
+        self.clients[i].received.extend_from_slice(&got);
         self.clients[i].avail = 0;
         self.note(rec, &format!("client {} read {}{}", i, total, if eof { " eof" } else { "" }));
         total
@@ -456,7 +464,10 @@ impl World {
                 self.server = None;
                 format!("PANIC {}", tail)
             }
-            Ok(Err(ServerError::ShutdownEvent)) => format!("shutdown {}", tail),
+            Ok(Err(ServerError::ShutdownEvent)) => {
+                self.shutdown_polls += 1;
+                format!("shutdown {}", tail)
+            }
             Ok(Err(e)) => {
                 self.poll_errors.push(format!("{:?}", e));
                 format!("err({:?}) {}", e, tail).replace('\n', " ")
@@ -476,6 +487,9 @@ impl World {
                 format!("ok reqs=[{}] {}", shown.join("|"), tail)
             }
         };
+        if self.killed && !out.starts_with("shutdown") {
+            self.nonshutdown_after_kill += 1;
+        }
         let op = format!("srv poll {}", ev_txt.join(" "));
         self.emit(rec, op, out);
         true
